@@ -120,7 +120,7 @@ def mesh_stage(ctx, dim):
     for (_, rid, line, clause) in rejects:
         rec = recs[rid]
         ev = rec["ev"][line - 1]
-        key = "model%dd.Mesh:%s:%s:%s" % (dim, rec["real"], ev["op"], clause)
+        key = "model%dd.Mesh:%s:%s:%s" % (dim, rec["real"], ev.get("via") or ev["op"], clause)
         what = "history #%d (%s realisation) rejected at op %d (%s a=%s b=%s): clause %s" % (
             rid, rec["real"], line, ev["op"], ev["a"], ev["b"], clause)
         ctx.violation(key, what, {"spec": "mesh/MeshTrace.tla", "record": {
